@@ -112,6 +112,11 @@ class Generator(Curve, Point):
             # exceed p, so an r below the order is not necessarily one.)
             return []
 
+        assert self._order is not None
+        if s < 1 or s >= self._order:
+            # no key verifies a signature whose s is outside [1, n-1]
+            return []
+
         try:
             points = self.points_for_x(r)
         except ValueError:
